@@ -8,6 +8,8 @@ import (
 	"sort"
 	"strings"
 
+	"golang.org/x/tools/go/ssa"
+
 	"cadcheck/core"
 )
 
@@ -27,12 +29,14 @@ var c44Groups = []pinGroup{
 func c44(r *core.Run) {
 	r.Explanation = "Decided clauses: (R1) every numeric constant that is written into account storage — values.CBORTag*, interpreter.PrimitiveStaticType*, HashInputType*, the encoded* field-index/length constants of interpreter/encode.go, " +
 		"common.PathDomain*, CompositeKind*, StorageDomain* — still exists and has the value pinned from the reviewed tree (additions at fresh values are allowed, renumbering/removal/reuse is not); " +
-		"(R2) every CBOR tag the storable encoder emits is accepted by a case of the decoder that constructs the same value kind."
+		"(R2) every CBOR tag the storable encoder emits is accepted by a case of the decoder that constructs the same value kind. (R5) no error of an inner encode/decode step of encoding/ccf is dropped or swallowed beyond the pinned baseline."
 	r.NotDecided = "round-trip equality on values; atree's own slab encoding (external)."
 	pinRule(r, "R1.pinned", "c44_pinned", c44Groups)
 	r.Floor("R1.pinned", 230)
 	c44TagSymmetry(r)
 	c44EncodingShape(r)
+	// shared ERR rule restricted to this codec: a failure of an inner encode/decode step must not be dropped
+	errDiscipline(r, "R5.errdrop", "encoding/ccf functions", func(fn *ssa.Function) bool { return fn.Pkg != nil && fn.Pkg.Pkg.Path() == mod+"/encoding/ccf" }, 100)
 }
 
 // c44EncodingShape: R3 — the sequence of CBOR primitives (and raw head bytes) each storable Encode method emits is the
